@@ -282,9 +282,10 @@ class Interp:
         if n == "Mult":
             if is_int(a) and is_int(b):
                 return a * b
-            if is_int(a) and (is_lin(b) or intish(b)):
+            seq = lambda x: isinstance(x, (bytes, str)) or (isinstance(x, tuple) and x and x[0] in ("list", "tuple", "fstr"))
+            if is_int(a) and not seq(b) and not isinstance(b, bool) and b is not None:
                 return scale(b, a)
-            if is_int(b) and (is_lin(a) or intish(a)):
+            if is_int(b) and not seq(a) and not isinstance(a, bool) and a is not None:
                 return scale(a, b)
             return ("op", n, a, b)
         if n == "Mod" and is_int(b) and b > 0:
@@ -327,6 +328,8 @@ class Interp:
         if op in ("In", "NotIn") and isinstance(b, tuple) and b and b[0] in ("tuple", "list") and conc(a) \
                 and all(conc(x) for x in b[1]):
             return (a in b[1]) == (op == "In")
+        if op in ("In", "NotIn") and isinstance(b, tuple) and b and b[0] == "dict" and conc(a) and all(conc(k) for k, _ in b[1]):
+            return (a in [k for k, _ in b[1]]) == (op == "In")
         # canonical direction for the negative operators: record as not(positive)
         neg = {"NotEq": "Eq", "IsNot": "Is", "NotIn": "In"}
         if op in neg:
@@ -334,19 +337,22 @@ class Interp:
         return self.h(("cmp", op, a, b))
 
     def boolop(self, kind, vals):
+        """value semantics of and/or: the first operand that decides, else a term over the undecided prefix"""
         out = []
-        for v in vals:
+        for i, v in enumerate(vals):
             tv = self.truth(v)
-            if kind == "and":
-                if tv is False:
-                    return v if not out else False
-                if tv is True:
-                    continue
-            else:
-                if tv is True:
-                    return v if not out else True
-                if tv is False:
-                    continue
+            decides = (tv is False) if kind == "and" else (tv is True)
+            skips = (tv is True) if kind == "and" else (tv is False)
+            if decides:
+                if not out:
+                    return v
+                out.append(v)
+                return (kind, tuple(out))
+            if skips and (i < len(vals) - 1 or out):
+                if i == len(vals) - 1:
+                    # the last operand is the value when every undecided one before it lets it through
+                    out.append(v)
+                continue
             out.append(v)
         if not out:
             return vals[-1] if vals else (kind == "and")
@@ -386,6 +392,13 @@ class Interp:
                 return tv
         if f == ("name", "isinstance"):
             pass
+        conc = lambda x: isinstance(x, (int, str, bytes, bool, type(None)))
+        if isinstance(f, tuple) and f[0] == "attr" and f[2] == "get" and isinstance(f[1], tuple) and f[1] and f[1][0] == "dict" \
+                and 1 <= len(args) <= 2 and conc(args[0]) and all(conc(k) for k, _ in f[1][1]):
+            for k, v in f[1][1]:
+                if k == args[0]:
+                    return v
+            return args[1] if len(args) == 2 else None
         if self.inline is not None:
             r = self.inline(f, args, kws, node, st, self)
             if r is not None:
@@ -474,6 +487,8 @@ class Interp:
         elif isinstance(s, ast.If):
             c = self.ev(s.test, st)
             tv = self.truth(c)
+            if tv is None:
+                tv = known_truth(c, st)      # decided earlier on this path: contradictory branches are infeasible
             if tv is None:
                 # conjunctions / disjunctions are split so that each recorded condition is an atom
                 a = st.fork()
@@ -615,6 +630,27 @@ class Interp:
                 if isinstance(n, ast.Name) and n.id not in carried:
                     st.env[n.id] = S(n.id)
         return self.run(loop.body, st)
+
+
+def known_truth(c, st):
+    """three-valued truth of a condition term given the conditions already recorded on the path"""
+    for t, v in st.conds:
+        if t == c:
+            return v
+    if isinstance(c, tuple) and c:
+        if c[0] == "not":
+            r = known_truth(c[1], st)
+            return None if r is None else (not r)
+        if c[0] in ("and", "or"):
+            vals = [known_truth(x, st) for x in c[1]]
+            if c[0] == "and":
+                if any(v is False for v in vals):
+                    return False
+                return True if all(v is True for v in vals) else None
+            if any(v is True for v in vals):
+                return True
+            return False if all(v is False for v in vals) else None
+    return None
 
 
 def record(st, c, truth):
